@@ -55,6 +55,55 @@ def WOpt.applyLegacy (r : WriteRequest) : WOpt → WriteRequest
     | some M => { r with update := some (union M (m.getD [])) }
   | o => WOpt.apply r o
 
+/-- The mask-related option CONSTRUCTORS of `pkg/resource/opt.go`, as a caller writes them. -/
+inductive WCtor where
+  | withUpdateMask (m : Option (List Path))
+  | withUpdatePaths (ps : List Path)
+  | withMoreUpdateMask (m : Option (List Path))
+  | withMoreUpdatePaths (ps : List Path)
+  | withResetMask (m : Option (List Path))
+  | withResetPaths (ps : List Path)
+  | withMoreWritableFields (m : Option (List Path))
+  | withMoreWritablePaths (ps : List Path)
+  | withAllFieldsWritable
+deriving DecidableEq, Repr, Inhabited
+
+/-- `&fieldmaskpb.FieldMask{Paths: paths}`: a non-nil mask (also without paths) that holds the
+variadic paths exactly as given — same order, duplicates, paths inside other paths and paths that do
+not exist in the message all kept; no `Normalize`, no validation at this point. -/
+def maskOfPaths (ps : List Path) : Option (List Path) := some ps
+
+/-- What each constructor returns: every `With…Paths(paths...)` is its `With…Mask` sibling applied to
+`&FieldMask{Paths: paths}`. -/
+def WCtor.opt : WCtor → WOpt
+  | .withUpdateMask m => .updateMask m
+  | .withUpdatePaths ps => .updateMask (maskOfPaths ps)
+  | .withMoreUpdateMask m => .moreUpdateMask m
+  | .withMoreUpdatePaths ps => .moreUpdateMask (maskOfPaths ps)
+  | .withResetMask m => .resetMask m
+  | .withResetPaths ps => .resetMask (maskOfPaths ps)
+  | .withMoreWritableFields m => .moreWritable m
+  | .withMoreWritablePaths ps => .moreWritable (maskOfPaths ps)
+  | .withAllFieldsWritable => .allWritable
+
+/-- The mask handed to an update-mask constructor (`some none`: a nil mask); `none` for the others. -/
+def WCtor.updateGiven : WCtor → Option (Option (List Path))
+  | .withUpdateMask m => some m
+  | .withUpdatePaths ps => some (some ps)
+  | _ => none
+
+/-- The paths handed to a more-update constructor (none for a nil mask and for the others). -/
+def WCtor.moreUpdateGiven : WCtor → List Path
+  | .withMoreUpdateMask m => m.getD []
+  | .withMoreUpdatePaths ps => ps
+  | _ => []
+
+/-- The mask handed to a reset-mask constructor; `none` for the others. -/
+def WCtor.resetGiven : WCtor → Option (Option (List Path))
+  | .withResetMask m => some m
+  | .withResetPaths ps => some (some ps)
+  | _ => none
+
 /-- `ComputeWriteConfig(opts...)`. -/
 def computeWriteConfig (opts : List WOpt) : WriteRequest := opts.foldl WOpt.apply .empty
 
